@@ -21,7 +21,8 @@ RULE = ("indexed strings — exhaustive: every sequence over the alphabet {'', '
         "read through data[:], every data[a:b] with 0<=a<=b<=n (+ out-of-range ones), every data[i], indices[:], values[:], "
         "len(), with the writeable and the read-only reader, and again after close() + open_dataset(...,'r') on the same "
         "bytes; plus seeded random sequences (quick <=60, thorough <=2000 entries) with 1-4 byte UTF-8 characters and entry "
-        "lengths c-1,c,c+1 around the chunk size, random partitions with empty parts. Plain fields — numeric x "
+        "lengths c-1,c,c+1 around the chunk size, random partitions with empty parts; histories of 2-4 write_part...complete "
+        "rounds on one field with the same writer object, a new one, or after close + reopen 'r+'. Plain fields — numeric x "
         "{bool,int8..int64,uint8..uint64,float32,float64}, fixed strings, categorical (key stored and read back), "
         "timestamp: every composition of sequences of extreme values up to length 3 (thorough 4) x both backends, plus random. "
         "Non-trivial = a staging-buffer flush happened inside write_part (bytes or entries >= chunk size) or the partition "
@@ -102,10 +103,19 @@ def reads_for(n, rng=None, extra_oob=True):
     return slices, items
 
 
-def mk_indexed(c, h5, parts, rng=None, write=False, tag=None):
+def mk_indexed(c, h5, parts, rng=None, write=False, tag=None, rounds=None, rewrap=False):
+    """parts: one write_part call each, then complete(). rounds (optional): a history of several such rounds; then
+    `parts` is their concatenation (what the field must hold) and `rewrap` says how the writer object is obtained for
+    every round after the first: False = the same object, True = a new WriteableIndexedFieldArray / field.writeable(),
+    "reopen" (HDF5) = close the dataset and reopen the same bytes 'r+'."""
+    if rounds is not None:
+        parts = [p for r in rounds for p in r]
     n = sum(len(p) for p in parts)
     slices, items = reads_for(n, rng)
     case = {"op": "c01_indexed", "c": c, "h5": h5, "parts": parts, "slices": slices, "items": items}
+    if rounds is not None:
+        case["rounds"] = rounds
+        case["rewrap"] = rewrap
     if write:
         case["write"] = True
     if tag:
@@ -192,6 +202,24 @@ def gen_cases(tier, rng):
                             if h5 and ((n >= 4 and k % 4) or (quick and n == 3 and k % 5)):
                                 continue
                             cases.append(mk_indexed(c, h5, pv, write=wr))
+    # histories: two or three write…complete rounds on the same field, same or new writer object, or reopened 'r+'
+    k = 0
+    for n in range(0, 4):
+        for seq in itertools.product(ALPHABET[1:] if n == 3 else ALPHABET, repeat=n):
+            seq = list(seq)
+            for cut in range(n + 1):
+                rounds2 = [[seq[:cut]] if cut else [], [seq[cut:]] if cut < n else [[]]]
+                for c in ([1, 2, 3, 50] if quick else [1, 2, 3, 4, 50]):
+                    for h5, rewrap in ((False, False), (False, True), (True, False), (True, True), (True, "reopen")):
+                        k += 1
+                        if quick and n >= 2 and k % 3:
+                            continue
+                        cases.append(mk_indexed(c, h5, None, rounds=rounds2, rewrap=rewrap))
+    for t in range(40 if quick else 600):
+        c = rng.choice([1, 2, 3, 4, 5, 7, 16])
+        rounds = [rand_partition(rng, [rand_string(rng, c) for _ in range(rng.randrange(0, 8))]) for _ in range(rng.randrange(1, 5))]
+        h5 = bool(t % 2)
+        cases.append(mk_indexed(c, h5, None, rng, rounds=rounds, rewrap=rng.choice([False, True, "reopen"] if h5 else [False, True])))
     # the default chunk size 1<<20 (8 MB staging buffers per field: only a few cases)
     for t in range(12 if quick else 150):
         n = rng.randrange(0, 6)
@@ -354,7 +382,28 @@ def impl_indexed(e, case):
         f = df.create_indexed_string("f", chunksize=case["c"])
     else:
         f = fields.IndexedStringMemField(s, chunksize=case["c"])
-    if case.get("write"):
+    if "rounds" in case:
+        data = f.data
+        for ri, rnd in enumerate(case["rounds"]):
+            if ri and case["rewrap"] == "reopen":
+                s.close_dataset("d")
+                bio = e["io"].BytesIO(bio.getvalue())
+                ds = s.open_dataset(bio, "r+", "d")
+                df = ds["df"]
+                f = df["f"]
+                data = f.data
+            elif ri and case["rewrap"]:
+                if h5:
+                    f = f.writeable()
+                    data = f.data
+                else:
+                    data = fields.WriteableIndexedFieldArray(case["c"], f.indices, f.values)
+            for p in rnd:
+                data.write_part(p)
+            data.complete()
+        if not h5:
+            f._data_wrapper = data          # read through the writer that wrote last
+    elif case.get("write"):
         f.data.write(case["parts"][0])
     else:
         for p in case["parts"]:
@@ -499,7 +548,10 @@ def impl_dispatch(e, case):
 # ------------------------------------------------------------------------------------------------------------------
 
 def to_model(case):
-    return {k: v for k, v in case.items() if not k.startswith("_") and k not in ("write", "key_names", "nformat")}
+    m = {k: v for k, v in case.items() if not k.startswith("_") and k not in ("write", "key_names", "nformat")}
+    if "rewrap" in m:
+        m["rewrap"] = bool(m["rewrap"])          # "reopen" is a new writer object on the persisted arrays
+    return m
 
 
 def _norm_err(x):
@@ -650,7 +702,7 @@ def nontrivial(case, mo):
     if case["op"] == "c01_dispatch":
         return True
     parts = case["parts"]
-    if len(parts) >= 2 or any(len(p) == 0 for p in parts):
+    if len(parts) >= 2 or any(len(p) == 0 for p in parts) or "rounds" in case:
         return True
     if case["op"] == "c01_indexed":
         c = case["c"]
@@ -672,6 +724,8 @@ def classify(case, mo):
         tags.append("empty-part")
     if case.get("write"):
         tags.append("write()")
+    if "rounds" in case:
+        tags.append("rounds:" + {False: "same-writer", True: "new-writer", "reopen": "reopen-r+"}[case["rewrap"]])
     if op == "c01_indexed":
         c = case["c"]
         nb = sum(len(s.encode()) for s in flat)
